@@ -115,32 +115,36 @@ class AirPlayStream(Stream):  # pylint: disable=too-few-public-methods
 
         server: Optional[StaticFileWebServer] = None
 
-        if os.path.exists(url):
-            _LOGGER.debug("URL %s is a local file, setting up web server", url)
-            server_address = net.get_local_address_reaching(self.config.address)
-            server = StaticFileWebServer(url, str(server_address))
-            await server.start()
-            url = server.file_address
-
-        takeover_release = self.core.takeover(RemoteControl)
         try:
-            # Set up a new connection and wrap it with an AirPlay stream of
-            # correct protocol version
-            self._connection = await http_connect(
-                str(self.config.address), self.service.port
-            )
-            rtsp = RtspSession(self._connection)
-            stream_protocol = self.create_airplay_protocol(self.service, rtsp)
-            player = AirPlayPlayer(rtsp, stream_protocol)
-            position = int(kwargs.get("position", 0))
-            self._play_task = asyncio.ensure_future(player.play_url(url, position))
-            return await self._play_task
+            if os.path.exists(url):
+                _LOGGER.debug("URL %s is a local file, setting up web server", url)
+                server_address = net.get_local_address_reaching(self.config.address)
+                server = StaticFileWebServer(url, str(server_address))
+                await server.start()
+                url = server.file_address
+
+            takeover_release = self.core.takeover(RemoteControl)
+            try:
+                # Set up a new connection and wrap it with an AirPlay stream of
+                # correct protocol version
+                self._connection = await http_connect(
+                    str(self.config.address), self.service.port
+                )
+                rtsp = RtspSession(self._connection)
+                stream_protocol = self.create_airplay_protocol(self.service, rtsp)
+                player = AirPlayPlayer(rtsp, stream_protocol)
+                position = int(kwargs.get("position", 0))
+                self._play_task = asyncio.ensure_future(
+                    player.play_url(url, position)
+                )
+                return await self._play_task
+            finally:
+                takeover_release()
+                self._play_task = None
+                if self._connection:
+                    self._connection.close()
+                    self._connection = None
         finally:
-            takeover_release()
-            self._play_task = None
-            if self._connection:
-                self._connection.close()
-                self._connection = None
             if server:
                 await server.close()
 
